@@ -573,6 +573,10 @@ static Token *paste(Token *lhs, Token *rhs) {
   // Paste the two tokens.
   char *buf = format("%.*s%.*s", lhs->len, lhs->loc, rhs->len, rhs->loc);
 
+  // `/ ## /` and `/ ## *` would start a comment, not form a token.
+  if (!strncmp(buf, "//", 2) || !strncmp(buf, "/*", 2))
+    error_tok(lhs, "pasting forms '%s', an invalid token", buf);
+
   // Tokenize the resulting string.
   Token *tok = tokenize_synthesized(buf, lhs);
   if (tok->next->kind != TK_EOF)
@@ -684,6 +688,8 @@ static Token *subst(Token *tok, MacroArg *args) {
 
     if (arg && equal(tok->next, "##")) {
       Token *rhs = tok->next->next;
+      if (rhs->kind == TK_EOF)
+        error_tok(tok->next, "'##' cannot appear at end of macro expansion");
 
       if (arg->tok->kind == TK_EOF) {
         MacroArg *arg2 = find_arg(args, rhs);
